@@ -75,6 +75,9 @@ func permuteDep(d m.DepM, perm []int) m.DepM {
 func genC16(g gen.G) C16Case {
 	nLabels := g.Int(0, 2)
 	attrNames := gen.Subset(g, []string{"k1", "k2", "k3"}, 60)
+	if g.Chance(30) {
+		attrNames = nil // labels only: the shape that admits a second level
+	}
 	if nLabels == 0 && len(attrNames) == 0 {
 		nLabels = 1
 	}
@@ -143,6 +146,45 @@ func genC16(g gen.G) C16Case {
 		}
 		bl.Deps = append(bl.Deps, d)
 	}
+	// second level: one first-level body (keyed by labels only) declares a key attribute
+	// of its own, under whose values further bodies are registered
+	second := -1
+	if len(attrNames) == 0 && len(bl.Deps) > 0 && g.Chance(50) {
+		second = g.Int(0, len(bl.Deps)-1)
+		ka := m.AttrM{Flag: "optional", DepKey: true, Cons: m.ConsM{K: "oneof", Elems: []m.ConsM{c16KeyAttrCons(cty.StringVal("")), {K: "ref", Scope: "var"}}}}
+		if g.Chance(50) {
+			dv := m.ValOf(cty.StringVal(gen.Pick(g, []string{"std", "alt"})))
+			ka.Default = &dv
+		}
+		bl.Deps[second].Body.Attrs["k2nd"] = ka
+		for _, val := range gen.Subset(g, []string{"std", "alt", "third"}, 60) {
+			sv := m.ValOf(cty.StringVal(val))
+			marker := fmt.Sprintf("marker%d", len(bl.Deps))
+			d2 := m.DepM{Labels: append([]m.LabelKeyM(nil), bl.Deps[second].Labels...), Attrs: []m.AttrKeyM{{Name: "k2nd", Static: &sv}}}
+			d2.Body = m.BodyM{
+				Desc: "dep " + marker,
+				Attrs: map[string]m.AttrM{
+					marker: {Flag: "optional", Desc: "desc of " + marker, Mods: []string{"m-" + marker},
+						Cons: m.ConsM{K: "ref", Scope: "var"},
+						Addr: &m.AttrAddrM{Steps: []m.StepM{{K: "static", Name: "mk"}, {K: "attrname"}}, AsReference: true, Scope: "res"}},
+				},
+			}
+			if g.Chance(70) {
+				d2.Body.DocsLink = &m.LinkM{URL: "https://example.com/" + marker, Tooltip: marker}
+			}
+			bl.Deps = append(bl.Deps, d2)
+		}
+	}
+	// the schema of a key attribute: declared by the static body or by the first-level body
+	keyAttr := func(name string) (m.AttrM, bool) {
+		if a, ok := bl.Body.Attrs[name]; ok && a.DepKey {
+			return a, true
+		}
+		if second >= 0 && name == "k2nd" {
+			return bl.Deps[second].Body.Attrs["k2nd"], true
+		}
+		return m.AttrM{}, false
+	}
 	// choose the dependent body to select and write the block for it
 	labels := make([]string, len(bl.Labels))
 	for i := range labels {
@@ -151,6 +193,21 @@ func genC16(g gen.G) C16Case {
 	var lines []string
 	if len(bl.Deps) > 0 && g.Chance(85) {
 		c.Target = g.Int(0, len(bl.Deps)-1)
+		if second >= 0 && g.Chance(50) {
+			// prefer the bodies involved in the second level
+			c.Target = gen.Pick(g, append([]int{second}, secondLevelIdx(bl, second)...))
+		}
+		if c.Target == second {
+			// the first-level body itself stays in force only while its key attribute
+			// contributes no key: unwritten and without default ...
+			ka := bl.Deps[second].Body.Attrs["k2nd"]
+			if ka.Default != nil {
+				if j := secondLevelFor(bl, second, ka.Default.Cty().AsString()); j >= 0 {
+					c.Target = j // ... with a default the body registered for it is the one in force
+				}
+				// (a default nothing is registered for: partially resolved lookup, first level in force)
+			}
+		}
 		d := bl.Deps[c.Target]
 		for _, lk := range d.Labels {
 			labels[lk.Index] = lk.Value
@@ -158,7 +215,8 @@ func genC16(g gen.G) C16Case {
 		keyed := map[string]bool{}
 		for _, ak := range d.Attrs {
 			keyed[ak.Name] = true
-			def := bl.Body.Attrs[ak.Name].Default
+			ks, _ := keyAttr(ak.Name)
+			def := ks.Default
 			if ak.Static != nil && def != nil && refmodel.DepKeySet(m.DepM{Attrs: []m.AttrKeyM{{Name: ak.Name, Static: def}}}).String() ==
 				refmodel.DepKeySet(m.DepM{Attrs: []m.AttrKeyM{ak}}).String() && g.Chance(60) {
 				continue // rely on the default value
@@ -185,6 +243,9 @@ func genC16(g gen.G) C16Case {
 				lines = append(lines, n+" = "+litText(gen.Pick(g, c16Vals)))
 			}
 		}
+		if second >= 0 && g.Chance(40) {
+			lines = append(lines, "k2nd = "+strconv.Quote(gen.Pick(g, []string{"std", "alt", "third", "none"})))
+		}
 	}
 	c.Block, c.Labels, c.Written = bl, labels, lines
 	// key-level part
@@ -197,6 +258,26 @@ func genC16(g gen.G) C16Case {
 	}
 	c.PermA = gen.Perm(g, idx)
 	return c
+}
+
+// secondLevelIdx lists the bodies registered under the first-level body's own key attribute.
+func secondLevelIdx(bl m.BlockM, first int) []int {
+	var out []int
+	for i, d := range bl.Deps {
+		if i != first && len(d.Attrs) == 1 && d.Attrs[0].Name == "k2nd" {
+			out = append(out, i)
+		}
+	}
+	return out
+}
+
+func secondLevelFor(bl m.BlockM, first int, val string) int {
+	for _, i := range secondLevelIdx(bl, first) {
+		if st := bl.Deps[i].Attrs[0].Static; st != nil && st.Cty().AsString() == val {
+			return i
+		}
+	}
+	return -1
 }
 
 func sameTypeVal(g gen.G, v cty.Value) cty.Value {
@@ -437,6 +518,15 @@ func checkC16(c C16Case) Result {
 		r.Class("no-keys")
 	default:
 		r.Class("selected")
+		if sel.Level1 != sel.Index {
+			r.Class("second-level-selected")
+			if _, written := blk.Body.Attributes["k2nd"]; !written {
+				r.Class("second-level-by-default")
+			}
+		}
+		if sel.HasKeys && !sel.Resolved {
+			r.Class("second-level-lookup-failed(first level in force)")
+		}
 		if len(c.Block.Deps[selected].Attrs) > 0 {
 			r.Class("keyed-by-attribute")
 		}
